@@ -160,6 +160,80 @@ def replay_autonewline(t):
     return "\n".join(out)
 
 
+def toplevel_default(rep: C.Report) -> None:
+    """Ob5 (E3): in expand_recurse's branch for a parameter reference outside a template, whatever expand_args returns
+    (it may be the default value, holding further calls) is passed through expand_recurse before it is emitted."""
+    import ast
+
+    import z3
+
+    from vf import astpaths as AP
+
+    ob = rep.add(C.Ob("Ob5 a parameter reference used at page level has its default value expanded", "E3 AST path encoder + z3", [], "all syntactic paths of one iteration of expand_recurse's cookie loop"))
+    try:
+        tree = ast.parse(open(os.path.join(C.SRC, "core.py")).read())
+        fns = [f for q, f in AP.functions(tree) if q[-1] == "expand_recurse"]
+        if len(fns) != 1:
+            ob.verdict, ob.detail = C.NOT_ENCODABLE, "expand_recurse not found"
+            return
+        fn = fns[0]
+        ob.functions.append(f"core.py:Wtp.expand.expand_recurse@{fn.lineno}")
+
+        def branch(test, pol):
+            if isinstance(test, ast.Compare) and isinstance(test.left, ast.Name) and test.left.id == "kind" and len(test.ops) == 1 and isinstance(test.ops[0], ast.Eq) and isinstance(test.comparators[0], ast.Constant) and test.comparators[0].value == "A":
+                return {"inA": 1} if pol else None
+            return None
+
+        def delta(n):
+            if isinstance(n, ast.Call) and isinstance(n.func, ast.Name):
+                if n.func.id == "expand_args":
+                    return {"ea": 1}
+                if n.func.id == "expand_recurse":
+                    return {"rec": 1}
+            return None
+
+        enc = AP.Encoder(fn, ["inA", "ea", "rec"], delta, branch=branch).run()
+        bad, seen = [], False
+        for ex in enc.exits:
+            if ex.base is None:
+                continue
+            d = {k: ex.counters[k] - ex.base[k] for k in ex.counters}
+            s0 = z3.Solver()
+            s0.add(ex.guard, d["inA"] >= 1, d["ea"] >= 1)
+            if str(s0.check()) == "sat":
+                seen = True
+            s = z3.Solver()
+            s.add(ex.guard, d["inA"] >= 1, d["ea"] >= 1, d["rec"] == 0)
+            r = str(s.check())
+            ob.queries += 2
+            ob.paths += 1
+            ob.conditions += 1
+            if r == "unsat":
+                ob.confirmed_conditions += 1
+            else:
+                bad.append((ex.kind, ex.line))
+        if not seen:
+            ob.verdict, ob.detail = C.NOT_ENCODABLE, "no path through the kind == 'A' branch calls expand_args"
+            return
+        ob.samples.append({"query": "iteration through the parameter-reference branch calls expand_args but never expand_recurse", "violating_exits": bad})
+        if not bad:
+            ob.verdict = C.DISCHARGED
+            return
+        from wikitextprocessor import Wtp
+
+        w = Wtp(quiet=True, quiet_output=True)
+        w.add_page("Template:t", 10, "T({{{1}}})")
+        w.start_page("P")
+        got = w.expand("{{{1|{{t|x}}}}}")
+        if got != "T(x)":
+            v = rep.violation("expand('{{{1|{{t|x}}}}}') at page level with Template:t = 'T({{{1}}})'", f"result {got!r}: the call inside the default value is not expanded (expected 'T(x)')", {"doc": "{{{1|{{t|x}}}}}"})
+            ob.verdict = C.VIOLATED if v.known is None else C.KNOWN
+        else:
+            ob.detail = f"path(s) {bad} skip expand_recurse but the replay expands the default -> inconclusive"
+    except Exception as e:  # noqa: BLE001
+        ob.detail += f"{type(e).__name__}: {e}"
+
+
 KNOWN_PROBES = [
     ("{{#ifeq:01|1|y|n}}", "y", "#ifeq compares '01' and '1' as strings; MediaWiki compares numerically when both are numbers"),
 ]
@@ -204,6 +278,7 @@ def run(rep: C.Report) -> None:
         )
     except Exception as e:  # noqa: BLE001
         rep.add(C.Ob("kernels", "E1 CrossHair", [], "", verdict=C.NOT_ENCODABLE, detail=f"{type(e).__name__}: {e}"))
+    toplevel_default(rep)
 
 
 def replay(r: dict) -> int:
